@@ -13,6 +13,7 @@ import math
 import numpy as np
 
 from .common import fr, same, unfr
+from .translate_c19 import gen_interp_code
 
 NAN = float("nan")
 INF = float("inf")
@@ -90,9 +91,21 @@ def wire_fill(f):
     return None if f is None else fr(f)
 
 
+NONE_SENTINEL = -1.2345e300  # stands for a Python `None` leaking into a result: never a documented value
+
+
+def _denone(r):
+    if r is None:
+        return NONE_SENTINEL
+    if isinstance(r, np.ndarray) and r.dtype == object:
+        flat = [NONE_SENTINEL if x is None else x for x in r.ravel()]
+        return np.array(flat, dtype=float).reshape(r.shape)
+    return r
+
+
 def call(fn, *a, **k):
     try:
-        return ("ok", fn(*a, **k))
+        return ("ok", _denone(fn(*a, **k)))
     except Exception as e:  # the implementation rejects the input
         return ("raise", type(e).__name__)
 
@@ -498,7 +511,7 @@ def run(c):
         "linear mode compared with 1e-9 relative tolerance (binary64 vs exact rationals); all other observables exactly",
         "NaN-valued bounds are outside the merge model (the code's callers replace them beforehand)",
     ]
-    c.prove()
+    c.prove(extra=gen_interp_code(c))
     prob = make_problem()
     run_corpus(c, prob)
     stream_exhaustive(c, prob)
@@ -511,7 +524,7 @@ def run(c):
 
 
 def replay(c, rp):
-    c.prove()
+    c.prove(extra=gen_interp_code(c))
     prob = make_problem()
     for f in rp.get("failures", []) + rp.get("correspondence_disagreements", []):
         print("replaying", f["what"], f["case"])
